@@ -140,7 +140,11 @@ def plan(ops):
                     name = "shared_default_function_list"
                 else:
                     name = "kwargs_sticky_within_instance" if m_kw == sticky else "shared_default_kwargs"
-            info.append({"expect": e, "model": m, "model_name": name, "kwargs_changed": bool(own_kw[i]) and sticky != kw})
+            # second candidate: keyword arguments of earlier calls stay in this instance only (what remains after the class-level
+            # defaults were repaired by bfb919b7e); the observation decides which model - if any - explains a difference
+            m2 = job(net, default[i], own_funcs[i], sticky, style, wo)
+            info.append({"expect": e, "model": m, "model_name": name, "kwargs_changed": bool(own_kw[i]) and sticky != kw,
+                         "model2": m2, "model2_name": "kwargs_sticky_within_instance" if m2 != e else None})
             own_kw[i] = sticky
             if default[i]:
                 glob_kw.update(kw)
@@ -221,17 +225,17 @@ def run_case(seed, tier, case_no):
                 tags.add("report_" + op[4])
             if inf["kwargs_changed"]:
                 tags.add("same_instance_kwargs_change")
-            e, m = strip(exp[inf["expect"]]), strip(exp[inf["model"]])
+            e, m, m2 = strip(exp[inf["expect"]]), strip(exp[inf["model"]]), strip(exp[inf["model2"]])
             if e.get("result"):
                 extra["results_with_findings"] += 1
             if "raised" in e:
                 tags.add("expected_raise")
-            if e != m:
+            if e != m or e != m2:
                 nontrivial = True
                 extra["leak_observable_calls"] += 1
             o = strip(obs)
             if o != e:
-                mech = inf["model_name"] if (o == m and inf["model_name"]) else None
+                mech = inf["model2_name"] if (o == m2 and inf["model2_name"]) else inf["model_name"] if (o == m and inf["model_name"]) else None
                 viols.append(common.viol(
                     "diagnose_network(net %s, %s) on instance %d returned a result that differs from the same call in a pristine "
                     "process" % (op[2], op[3], op[1]), mechanism=mech, op=op, observed=_short(o), expected=_short(e),
